@@ -838,6 +838,9 @@ func scenarios(thorough bool) []scenario {
 		transportScenario("transport-get", nil, []string{"x"}, []string{"x"}, []string{"y"}),
 		transportScenario("transport-reap-explicit", nil, []string{"x", "x"}, []string{"REAP"}, []string{"y", "x"}),
 		transportScenario("transport-reap-timer", []time.Duration{time.Minute, lifetime}, []string{"x"}, []string{"x", "y"}),
+		roundTripScenario("roundtrip-shared-delegate", true, []string{"a.org"}, []string{"a.org"}, []string{"c.org"}),
+		roundTripScenario("roundtrip-direct", false, []string{"x.org:1"}, []string{"y.org:2", "x.org:1"}, []string{"z.org"}),
+		heavy(roundTripScenario("roundtrip-two-each", true, []string{"a.org", "b.org:8448"}, []string{"e.org", "a.org"})),
 		sharedEventScenario("1", false),
 		sharedEventScenario("10", false),
 		sharedEventScenario("12", false),
@@ -864,6 +867,7 @@ func scenarios(thorough bool) []scenario {
 			dnsScenario("dns-three-hosts", 2, []time.Duration{ttl}, L("a", "b"), L("b", "c"), L("c", "a")),
 			dnsScenario("dns-dial-evict", 1, []time.Duration{ttl}, L("dial:a", "b"), L("a"), L("dial:b")),
 			transportScenario("transport-many", []time.Duration{lifetime + time.Minute}, []string{"x", "y"}, []string{"y", "x"}, []string{"REAP", "x"}),
+			heavy(roundTripScenario("roundtrip-three-threads", true, []string{"e.org", "a.org"}, []string{"a.org"}, []string{"c.org", "e.org"})),
 			sharedEventScenario("3", false), sharedEventScenario("11", false), sharedEventScenario("12", true), sharedEventScenario("1", true),
 		)
 	}
